@@ -151,6 +151,9 @@ func runSelfTest(spec *PropSpec, root, verif string) []selfResult {
 		if !concerns {
 			continue
 		}
+		if only := os.Getenv("FG_SELFTEST_ONLY"); only != "" && !strings.Contains(","+only+",", ","+e.ID+",") {
+			continue
+		}
 		sr := selfResult{ID: e.ID, Kind: e.Kind, Expect: "silent"}
 		if e.Kind == "mutant" {
 			sr.Expect = "reported"
